@@ -207,12 +207,12 @@ func init() {
 	eng.Register(&eng.Check{
 		ID: "C24", Level: "exploration", HangBound: 900 * time.Second,
 		QuickBudget: 240 * time.Second, ThoroughBudget: 24 * time.Minute,
-		Rule: "main content in 9 small diagrams (empty, leaf, chain, container, row of leaves, tall chain, outside labels, grid + connection, horizontal with labelled connections) x every subset of <=k of the 8 near constants x every assignment of near-shape kinds (leaf, long label, container with a connection, outside-top label, outside-left label, container with outside-bottom label), laid out with dagre / ELK; each top-level constant-near shape's box is compared with the bounding box of the main content; non-trivial = at least one near shape was placed; outcome = offsets of the near shapes from the content box",
+		Rule: "main content in 9 small diagrams (empty, leaf, chain, container, row of leaves, tall chain, outside labels, grid + connection, horizontal with labelled connections) x every subset of <=k of the 8 near constants x every assignment of near-shape kinds (leaf, long label, container with a connection, outside-top label, outside-left label, container with outside-bottom label), plus every ordered pair of different kinds sharing one constant (8 constants x 12 / 30 pairs x 4 / 9 mains), laid out with dagre / ELK; each top-level constant-near shape's box is compared with the bounding box of the main content; non-trivial = at least one near shape was placed; outcome = offsets of the near shapes from the content box",
 		Assumptions: []string{
 			"'outside the bounding box' is judged against the box of the main content's shapes only (the weakest reading: outside labels and connection routes enlarge the box d2near uses, which only moves near shapes further out)",
 			"'centred' accepts the centre of the shapes-only box or of the box of shapes + outside labels + connection routes, within 1 px",
 			"float geometry of the laid-out graph is used (the exported integers are its truncation)",
-			"diagrams whose root is itself a grid or sequence diagram are outside the space; near shapes do not share a constant (overlap between near shapes is not part of the statement)",
+			"diagrams whose root is itself a grid or sequence diagram are outside the space; near shapes that share a constant may overlap each other (overlap between near shapes is not part of the statement); each is still judged against the main content",
 		},
 		Oracles: map[string]eng.Oracle{"layout": c24Oracle},
 		Run: func(w *eng.W) {
@@ -222,6 +222,30 @@ func init() {
 					emit("layout", mkIn("dagre", src))
 					emit("layout", mkIn("elk", src))
 				})
+			})
+			// two (thorough: also three) near shapes of different kinds (hence sizes) sharing ONE constant: each must be
+			// placed for its own size (a placement remembered per constant puts the second one over the content or off-centre)
+			chunked(w, "shared-constant:ordered-kind-pairs:dagre+elk", 4, func(emit func(string, string)) {
+				nk := w.Pick(4, 6)
+				mains := c24Mains[:w.Pick(4, len(c24Mains))]
+				for _, c := range nearConstants {
+					for i := 0; i < nk; i++ {
+						for j := 0; j < nk; j++ {
+							if i == j {
+								continue
+							}
+							for _, m := range mains {
+								src := m
+								if src != "" {
+									src += "\n"
+								}
+								src += fmt.Sprintf("t1: "+c24Kinds[i]+"\nt2: "+c24Kinds[j], c, c)
+								emit("layout", mkIn("dagre", src))
+								emit("layout", mkIn("elk", src))
+							}
+						}
+					}
+				}
 			})
 			if !w.Thorough() {
 				chunked(w, "subsets=2:4kinds:dagre", 8, func(emit func(string, string)) {
